@@ -19,7 +19,8 @@ from .core import SStr, SInt, SBool, SSet, SSeq, Lit, IntLit, Val, Rep, SetLit, 
 GRAMMAR = r"""
 start: select | delete | update | insert | noeffect
 
-select: SELECT DISTINCT? sel_list FROM source join* where? order?
+select: SELECT DISTINCT? sel_list FROM source join* where? order? limit?
+limit: LIMIT expr (OFFSET expr)?
 sel_list: sel_item ("," sel_item)*
 sel_item: expr (AS NAME)?
 source: NAME (AS? NAME)?                 -> src_table
@@ -54,6 +55,7 @@ noeffect: NOEFFECT
      | func
      | colref
      | "(" expr ")"
+     | atom COLLATE NAME                   -> collate
 func: NAME "(" [expr ("," expr)*] ")"
 colref: NAME ("." NAME)?
 
@@ -78,6 +80,9 @@ INTO.2: /into\b/i
 VALUES.2: /values\b/i
 CONFLICT.2: /ignore\b|replace\b/i
 DIRECTION.2: /asc\b|desc\b/i
+LIMIT.2: /limit\b/i
+OFFSET.2: /offset\b/i
+COLLATE.2: /collate\b/i
 NOEFFECT.3: /__NOEFFECT__/
 CMP: "==" | "=" | "<=" | ">=" | "<>" | "!=" | "<" | ">"
 ADDOP: "+" | "-"
@@ -480,9 +485,13 @@ class SelectInfo(object):
         self.where = None
         self.order = []          # [expr-node]
         self.direction = None
+        self.limit = None        # the LIMIT node, if any
 
 
-def select_info(node):
+def select_info(node, allow_limit=False):
+    """allow_limit: a LIMIT clause truncates the row set, so every obligation that equates the selected
+    rows with a specified set must not silently accept one; callers that only classify the statement
+    (reads / frame conditions) pass allow_limit=True"""
     si = SelectInfo()
     for ch in node.children:
         if isinstance(ch, lark.Token):
@@ -513,6 +522,10 @@ def select_info(node):
                     si.order.append(it.children[0])
                 elif it.type == "DIRECTION":
                     si.direction = str(it).upper()
+        elif ch.data == "limit":
+            si.limit = ch
+    if si.limit is not None and not allow_limit:
+        raise SQLSyntax("LIMIT clause: the statement returns a truncated row set, which no row-set specification allows")
     return si
 
 
